@@ -19,7 +19,8 @@
                      <= logIndex; peer updates: remote <= local <= logIndex.
      VInvS s         VInv for both parties of the two-party system. *)
 From Coq Require Import List ZArith NArith Bool Arith.
-From LV Require Import Channel.Model Channel.Resync Channel.View Channel.ViewProofs.
+From LV Require Import Channel.Model Channel.Resync Channel.Proofs Channel.View Channel.ViewProofs
+     Channel.ViewRefine.
 Import ListNotations.
 Local Open Scope N_scope.
 
@@ -133,6 +134,89 @@ Theorem C01view_refinement_partial : forall c o h lA lB nA nB,
   end.
 Proof. exact commit_of_finish. Qed.
 
+(* ---------------------------------------------------------------------------------------------
+   THE FORMERLY MISSING LEMMA of the refinement (ViewRefine.v), proved:
+   computeView over COMPACTED entry logs = the cut.
+     LogCorr L Lo U Ft Fo   the entry log U stands for the update list L (other log Lo): the
+                            LogIndexes of U, in list order, are exactly the PRESENT indices of L -
+                            a settle / fail / fee update is present iff its index is >= the
+                            compaction frontier Ft of its log, an Add iff no settle / fail naming it
+                            lies below the frontier Fo of the other log - and every entry carries
+                            type, indices and amounts of its update (a settle / fail the amount of
+                            the Add it names).
+   For party p, chain w, the chain's newest commitment [tip] (itself commit_of of its cut over p's
+   logs) and any larger cut (nO, nP) inside the logs: if heights are set exactly below tip's cut
+   (C01view_height_set_iff_included), every settle / fail names an Add committed below tip's cut
+   and parents are unique, then whenever the cut-level model builds commitment k = commit_of at
+   (nO, nP), computeView succeeds and finish_commit on ITS balances, fee rate and live HTLC sets
+   is k. *)
+Theorem C01view_computeView_is_cut :
+  forall (c : cfg) (p : bool) (LO LP : list upd) (UO UP : ulog) (Fo Fp : nat),
+  LogCorr LO LP UO Fo Fp -> LogCorr LP LO UP Fp Fo ->
+  forall (w : bool) (tip k : commit) (nO nP : nat) (owner : bool) (h : Z),
+  (Fo <= n_of p tip /\ n_of p tip <= nO /\ nO <= length LO)%nat ->
+  (Fp <= n_of (negb p) tip /\ n_of (negb p) tip <= nP /\ nP <= length LP)%nat ->
+  (forall e, In e (l_list UO) -> (committed w e = 0 <-> (n_of p tip <= idx e)%nat)) ->
+  (forall e, In e (l_list UP) -> (committed w e = 0 <-> (n_of (negb p) tip <= idx e)%nat)) ->
+  (forall j, In j (parents LO) -> exists a, add_pos LP j = Some a /\ (a < n_of (negb p) tip)%nat) ->
+  (forall j, In j (parents LP) -> exists a, add_pos LO j = Some a /\ (a < n_of p tip)%nat) ->
+  NoDup (parents LO) -> NoDup (parents LP) ->
+  commit_of c (c_owner tip) (c_h tip) (if p then LO else LP) (if p then LP else LO)
+            (c_nA tip) (c_nB tip) = Some tip ->
+  commit_of c owner h (if p then LO else LP) (if p then LP else LO)
+            (if p then nO else nP) (if p then nP else nO) = Some k ->
+  exists ours theirs rate liveO liveT,
+    computeView c p UO UP tip w (N.of_nat nO) (N.of_nat nP) = Some (ours, theirs, rate, liveO, liveT) /\
+    finish_commit c owner h (if p then nO else nP) (if p then nP else nO)
+      (if p then ours else theirs) (if p then theirs else ours) rate
+      (sort_adds (map addent_of (if p then liveO else liveT)))
+      (sort_adds (map addent_of (if p then liveT else liveO))) = Some k.
+Proof. exact computeView_is_cut. Qed.
+
+(* Party-level refinement of the two evaluating steps.  Corr c p x y Fo Fp (ViewRefine.v): the
+   incremental party y stands for the cut-level party x - equal commitments and log counters,
+   LogCorr for both logs with frontiers below both tails, VInv, every held commitment is commit_of
+   of its cut over x's logs, every settle / fail in either log names an Add below the cut of both
+   tails, parents unique.  Then SignNextCommitment / ReceiveNewCommitment of the incremental
+   machine succeed whenever the cut model's do, send the SAME message and hold the SAME four
+   commitments afterwards. *)
+Theorem C01view_sign_refines : forall c p x y Fo Fp, Corr c p x y Fo Fp ->
+  forall x' m, do_sign c p x = (Ok, x', Some m) ->
+  exists y', v_sign c p y = (Ok, y', Some m) /\
+             vk (v_ltail y') = lTail x' /\ option_map vk (v_ltip y') = lTip x' /\
+             vk (v_rtail y') = rTail x' /\ option_map vk (v_rtip y') = rTip x'.
+Proof. exact sign_refines. Qed.
+
+Theorem C01view_recv_sig_refines : forall c p x y Fo Fp, Corr c p x y Fo Fp ->
+  forall k0 x', do_recv_sig c p x k0 = (Ok, x') ->
+  exists y', v_recv_sig c p y k0 = (Ok, y') /\
+             vk (v_ltail y') = lTail x' /\ option_map vk (v_ltip y') = lTip x' /\
+             vk (v_rtail y') = rTail x' /\ option_map vk (v_rtip y') = rTip x'.
+Proof. exact recv_sig_refines. Qed.
+
+(* Corr is an invariant of the commitment dance: it holds for the freshly funded channel and is
+   kept - together with the equality of the step's result and message - by SignNextCommitment,
+   ReceiveNewCommitment and RevokeCurrentCommitment.  (NOT yet proved: that update creation /
+   delivery and ReceiveRevocation's compaction keep it; see notes/C01view.md.) *)
+Theorem C01view_corr_init : forall c p x y,
+  init_party c p = Some x -> vinit_party c p = Some y -> Corr c p x y 0 0.
+Proof. exact corr_init. Qed.
+
+Theorem C01view_corr_sign : forall c p x y Fo Fp, Corr c p x y Fo Fp ->
+  forall x' m, do_sign c p x = (Ok, x', Some m) ->
+  exists y', v_sign c p y = (Ok, y', Some m) /\ Corr c p x' y' Fo Fp.
+Proof. exact sign_corr. Qed.
+
+Theorem C01view_corr_recv_sig : forall c p x y Fo Fp, Corr c p x y Fo Fp ->
+  forall k0 x', do_recv_sig c p x k0 = (Ok, x') ->
+  exists y', v_recv_sig c p y k0 = (Ok, y') /\ Corr c p x' y' Fo Fp.
+Proof. exact recv_sig_corr. Qed.
+
+Theorem C01view_corr_revoke : forall c p x y Fo Fp, Corr c p x y Fo Fp ->
+  forall x' m, do_revoke x = (Ok, x', Some m) ->
+  exists y', v_revoke p y = (Ok, y', Some m) /\ Corr c p x' y' Fo Fp.
+Proof. exact revoke_corr. Qed.
+
 Print Assumptions C01view_height_written_once.
 Print Assumptions C01view_heights_reflect_cuts.
 Print Assumptions C01view_invariant_step.
@@ -142,3 +226,10 @@ Print Assumptions C01view_compaction_removes_only_locked.
 Print Assumptions C01view_compacted_below_both_tails.
 Print Assumptions C01view_restore_partial.
 Print Assumptions C01view_refinement_partial.
+Print Assumptions C01view_computeView_is_cut.
+Print Assumptions C01view_sign_refines.
+Print Assumptions C01view_recv_sig_refines.
+Print Assumptions C01view_corr_init.
+Print Assumptions C01view_corr_sign.
+Print Assumptions C01view_corr_recv_sig.
+Print Assumptions C01view_corr_revoke.
